@@ -12,7 +12,8 @@ Inductive cstep :=
 | KAcd (aaguid id : bytes) (crv : Z) (x y : bytes) (alg : option Z)   (* AttestedCredentialData::new + setter, EC2 key from CoseKeyBuilder *)
 | KMc (o : option (option bool * option bytes))                    (* set_make_credential_extensions *)
 | KGa (o : option (option bytes))                                  (* set_assertion_extensions *)
-| KRaw (e : option bytes).                                         (* ad.extensions = from_reader(e) : assignment to the pub field *)
+| KRaw (e : option bytes)                                          (* ad.extensions = from_reader(e) : assignment to the pub field *)
+| KAcdRaw (aaguid id : bytes) (crv : Z) (x y : bytes) (alg : option Z).   (* ad.attested_credential_data = Some(new(..)?) : pub field *)
 
 Inductive enc_obs :=
 | EAcdErr                                                          (* AttestedCredentialData::new returned Err *)
@@ -26,7 +27,8 @@ Inductive dec_obs :=
 | DPrefix (n : N) (flags counter : N)   (* accepted, and to_vec() of the result is the first n bytes of the input *)
 | DVal (hash : bytes) (flags counter : N)
        (acd : option (bytes * bytes * bytes))                      (* aaguid, id, key.to_vec() *)
-       (ext : option bytes) (ext_float : bool).                    (* extensions re-serialised; does it contain a float *)
+       (ext : option bytes) (float : bool).                        (* extensions re-serialised; does key or extensions contain a float
+                                                                      (ciborium re-encodes floats at the shortest exact width: bytes not compared) *)
 
 Inductive adcase :=
 | CEnc (rp_hash : bytes) (counter : option N) (steps : list cstep) (impl : enc_obs)
@@ -44,6 +46,7 @@ Definition to_step (s : cstep) : option step :=
   | KAcd g id crv x y alg => Some (SAcd g id (ec2_pub_key crv x y alg))
   | KMc o => Some (SMc o)
   | KGa o => Some (SGa o)
+  | KAcdRaw g id crv x y alg => Some (SAcdRaw g id (ec2_pub_key crv x y alg))
   | KRaw None => Some (SRaw None)
   | KRaw (Some b) => match cbor_read b with Some v => Some (SRaw (Some v)) | None => None end
   end.
@@ -90,7 +93,7 @@ Definition dec_agree (input : bytes) (o : dec_obs) : bool :=
       && match ad_acd ad, a with
          | None, None => true
          | Some x, Some (g, id, kb) =>
-             beq (acd_aaguid x) g && beq (acd_cred_id x) id && beq (cbor_encode (acd_key x)) kb
+             beq (acd_aaguid x) g && beq (acd_cred_id x) id && (flt || beq (cbor_encode (acd_key x)) kb)
          | _, _ => false
          end
       && match ad_ext ad, e with
@@ -153,13 +156,13 @@ Definition agree (c : adcase) : bool :=
 Definition step_in_scope (s : cstep) : bool :=
   match s with
   | KFlags f => N.land f 29 =? f
-  | KRaw _ => false
+  | KRaw _ | KAcdRaw _ _ _ _ _ _ => false
   | _ => true
   end.
 
 Definition id_too_long (s : cstep) : bool :=
   match s with
-  | KAcd _ id _ _ _ _ => 65535 <? N.of_nat (length id)
+  | KAcd _ id _ _ _ _ | KAcdRaw _ id _ _ _ _ => 65535 <? N.of_nat (length id)
   | _ => false
   end.
 
@@ -183,7 +186,7 @@ Fixpoint expected (steps : list cstep) (flags : N) (acd : option (bytes * bytes 
       | Some v => expected r (N.lor flags 128) acd (Some v)
       | None => expected r flags acd ext
       end
-  | KRaw _ :: r => expected r flags acd ext
+  | KRaw _ :: r | KAcdRaw _ _ _ _ _ _ :: r => expected r flags acd ext
   end.
 
 Definition enc_oracle (rp_hash : bytes) (counter : option N) (steps : list cstep) (impl : enc_obs) : bool :=
